@@ -163,6 +163,34 @@ type cell struct {
 	errf    int // what the ToHTTPError translator answers; 500 + defaultF: the stock translator
 	defF    bool
 	ver     string
+	ctxErrs []ctxErr // gin only: what an earlier middleware attaches with c.Error before c.Next()
+}
+
+// kind: plain | status (the error has a StatusCode() of its own) | meta (a *gin.Error with meta)
+type ctxErr struct {
+	kind string
+	code int
+}
+
+func (e ctxErr) coq() string {
+	switch e.kind {
+	case "status":
+		return emit.App("CEStatus", emit.Z(int64(e.code)))
+	case "meta":
+		return "CEMeta"
+	}
+	return "CEPlain"
+}
+
+func (e ctxErr) attach(c *gin.Context) {
+	switch e.kind {
+	case "status":
+		c.Error(stErr{e.code, "context error with a status of its own"})
+	case "meta":
+		c.Error(&gin.Error{Err: errors.New("public context error"), Type: gin.ErrorTypePublic, Meta: map[string]interface{}{"m": 1}})
+	default:
+		c.Error(errors.New("context error of an earlier middleware"))
+	}
 }
 
 func validCode(c int) bool { return c >= 100 && c <= 999 }
@@ -279,6 +307,15 @@ func newInstance(cfg cell, specs []cell) *instance {
 	switch cfg.impl {
 	case "Gin":
 		e := gin.New()
+		// front middleware: attaches the context errors of the spec the request names, does
+		// not abort, and hands over to the endpoint handler
+		e.Use(func(c *gin.Context) {
+			k, _ := strconv.Atoi(c.Request.Header.Get("X-Case"))
+			for _, ce := range specs[k].ctxErrs {
+				ce.attach(c)
+			}
+			c.Next()
+		})
 		e.GET("/a", luragin.CustomErrorEndpointHandler(logging.NoOp, errF)(ep, p))
 		in.h = e
 	case "Mux":
@@ -299,6 +336,10 @@ func (in *instance) cellOf(k int) cell {
 	c := in.cfg
 	sp := in.specs[k]
 	c.resp, c.err, c.ver = sp.resp, sp.err, sp.ver
+	c.ctxErrs = nil
+	if in.cfg.impl == "Gin" {
+		c.ctxErrs = sp.ctxErrs
+	}
 	if in.cfg.ctxDone != 1 {
 		c.ctxDone = sp.ctxDone
 	}
@@ -347,6 +388,9 @@ func withVersion(ver string, f func()) {
 
 // run: a fresh instance for this one cell
 func (c cell) run() (obs observation) {
+	if c.impl != "Gin" && len(c.ctxErrs) > 0 {
+		panic("context errors exist in the gin chain only")
+	}
 	in := newInstance(c, []cell{c})
 	withVersion(c.ver, func() { obs = in.serve(0) })
 	return
@@ -377,8 +421,12 @@ func (c cell) coqInput() string {
 		perr = emit.Some(fmt.Sprintf("(mk_perr %s %s %s)",
 			optZ(c.err.hasStatus(), c.err.code), emit.Bool(c.err.isMulti()), emit.Str(c.err.build().Error())))
 	}
-	return fmt.Sprintf("(mk_input %s %s %s %s %s %s %s %s)",
-		c.impl, c.rv.coq, resp, perr, emit.Z(int64(c.ttl)), emit.Bool(c.ctxDone != 0), emit.Z(int64(c.errf)), emit.Str(c.ver))
+	ces := make([]string, len(c.ctxErrs))
+	for i, e := range c.ctxErrs {
+		ces[i] = e.coq()
+	}
+	return fmt.Sprintf("(mk_input %s %s %s %s %s %s %s %s %s)",
+		c.impl, c.rv.coq, resp, perr, emit.Z(int64(c.ttl)), emit.Bool(c.ctxDone != 0), emit.Z(int64(c.errf)), emit.Str(c.ver), emit.List(ces))
 }
 
 func (o observation) coq() string {
@@ -404,6 +452,11 @@ func (c cell) js() map[string]interface{} {
 		"backends": c.rv.nBackends, "cache_ttl_ns": int64(c.ttl), "ctx_done": c.ctxDone, "errf": c.errf,
 		"default_to_http_error": c.defF, "version_header_value": c.ver,
 	}
+	ce := []string{}
+	for _, e := range c.ctxErrs {
+		ce = append(ce, fmt.Sprintf("%s:%d", e.kind, e.code))
+	}
+	m["gin_context_errors"] = ce
 	if c.resp != nil {
 		r := map[string]interface{}{"complete": c.resp.complete, "meta_headers": c.resp.meta, "meta_status": c.resp.status}
 		if c.resp.dataNil {
@@ -535,6 +588,9 @@ func main() {
 		} else {
 			w.Count("err:" + c.err.kind)
 		}
+		if c.impl == "Gin" {
+			w.Count(fmt.Sprintf("gin-context-errors:%d", len(c.ctxErrs)))
+		}
 		if o.panicked {
 			w.Count("observed:panic")
 		} else {
@@ -591,6 +647,29 @@ func main() {
 		add(c, "corpus")
 	}
 
+	// gin: an earlier middleware left errors in c.Errors (no abort): the reply must be that of
+	// THIS pipeline's pair - 418 stays 418, (nil, nil) stays 200 {}
+	ctxPool := [][]ctxErr{{{kind: "plain"}}, {{kind: "status", code: 503}}, {{kind: "meta"}},
+		{{kind: "plain"}, {kind: "status", code: 401}}, {{kind: "meta"}, {kind: "plain"}}}
+	for _, ces := range ctxPool {
+		for _, rn := range []string{"RJson", "RNoop"} {
+			c := std("Gin", rn)
+			c.ctxErrs = ces
+			c.err = &errSpec{kind: "httpresp", code: 418, msg: "tea"}
+			add(c, "corpus")
+			c.err = nil
+			add(c, "corpus")
+			c.err = &errSpec{kind: "plain", msg: "plain"}
+			add(c, "corpus")
+			c.resp = &respSpec{dataJS: dataPool[0], complete: true, status: 200}
+			c.ttl = time.Hour
+			add(c, "corpus")
+			c.err = nil
+			c.ctxDone = 1
+			add(c, "corpus")
+		}
+	}
+
 	// instance reuse, most telling order first: ONE handler per implementation and render serves
 	// partial, failed, complete, partial, empty, failed, complete+metadata, (nil, nil) in a row;
 	// every step is an ordinary case (the property is about THIS request's pair)
@@ -606,9 +685,9 @@ func main() {
 			{resp: complete, ver: v},
 			{resp: partial, ver: v},
 			{resp: empty, ver: v},
-			{err: &errSpec{kind: "status", code: 404, msg: "failed #2"}, ver: v},
+			{err: &errSpec{kind: "status", code: 404, msg: "failed #2"}, ver: v, ctxErrs: []ctxErr{{kind: "plain"}}},
 			{resp: withMeta, ver: v},
-			{ver: v},
+			{ver: v, ctxErrs: []ctxErr{{kind: "status", code: 503}, {kind: "meta"}}},
 			{resp: partial, err: &errSpec{kind: "merge", msg: "partial and failed"}, ver: v},
 			{resp: complete, ver: v},
 			{resp: &respSpec{dataNil: true, complete: true}, ver: v},
@@ -680,6 +759,10 @@ func main() {
 								}
 							}
 							add(c, "core")
+							if impl == "Gin" && ttl == 0 {
+								c.ctxErrs = ctxPool[(len(sh.data)+done+len(rn))%len(ctxPool)]
+								add(c, "core-gin-context-errors")
+							}
 						}
 					}
 				}
@@ -706,6 +789,9 @@ func main() {
 			}
 			if code%5 == 0 {
 				c.defF, c.errf = false, 503
+			}
+			if impl == "Gin" && code%4 == 0 {
+				c.ctxErrs = []ctxErr{{kind: "status", code: 100 + (code*7)%500}}
 			}
 			add(c, "status-sweep")
 		}
@@ -818,6 +904,9 @@ func main() {
 			}
 			c.err = e
 		}
+		if c.impl == "Gin" && r.Chance(2, 5) {
+			c.ctxErrs = ctxPool[r.Intn(len(ctxPool))]
+		}
 		add(c, "random")
 	}
 
@@ -904,5 +993,5 @@ func main() {
 		}
 	}
 
-	w.Close("real gin CustomErrorEndpointHandler, mux CustomEndpointHandlerWithHTTPError and the same behind mux.DefaultEngine (HTTPErrorInterceptor), proxy stubbed by a scripted (response, error) pair; corpus; exhaustive core product impl(3) x render x response shape (nil | {empty,non-empty} x complete x metadata headers {none,unrelated,colliding,...}) x error kinds x ttl x context expired; error status sweep 100..999 (+ invalid codes), translator answers, no-op metadata statuses; instance reuse: one handler serving a sequence of different (response, error) pairs (telling order in the corpus, 60 random sequences of 3-6 steps; thorough 600) and the same handler hit from 12 goroutines (distinct (input, observation) pairs); structured random over the full product (renders json/no-op/string/json-collection reached through output_encoding or the backend encoding, nil data map, ttl incl. sub-second/negative, version header value); compared: status, values of X-Krakend-Completed / Cache-Control / X-Krakend, body (JSON tree or raw bytes); nontrivial = anything but (no error, live context, non-empty complete response without metadata, ttl 0, json render)", true)
+	w.Close("real gin CustomErrorEndpointHandler, mux CustomEndpointHandlerWithHTTPError and the same behind mux.DefaultEngine (HTTPErrorInterceptor), proxy stubbed by a scripted (response, error) pair; corpus; exhaustive core product impl(3) x render x response shape (nil | {empty,non-empty} x complete x metadata headers {none,unrelated,colliding,...}) x error kinds x ttl x context expired; error status sweep 100..999 (+ invalid codes), translator answers, no-op metadata statuses; gin also behind a front middleware that leaves 0-2 errors in c.Errors without aborting (corpus, half of the gin core product, every 4th swept status, 2/5 of the random gin cells, reuse sequences); instance reuse: one handler serving a sequence of different (response, error) pairs (telling order in the corpus, 60 random sequences of 3-6 steps; thorough 600) and the same handler hit from 12 goroutines (distinct (input, observation) pairs); structured random over the full product (renders json/no-op/string/json-collection reached through output_encoding or the backend encoding, nil data map, ttl incl. sub-second/negative, version header value); compared: status, values of X-Krakend-Completed / Cache-Control / X-Krakend, body (JSON tree or raw bytes); nontrivial = anything but (no error, live context, non-empty complete response without metadata, ttl 0, json render)", true)
 }
